@@ -5,6 +5,8 @@
 -/
 import Hv.Storage.Migrate
 
+set_option linter.unusedSectionVars false
+
 namespace Hv.Migrate
 
 /-! ### Byte level -/
@@ -84,15 +86,19 @@ theorem readers_agree (segs : List Bytes) (hlen : ∀ s ∈ segs, s.length < 429
 
 /-! ### Record level: `lastOf` -/
 
-theorem lastOf_nil (k : String) : lastOf [] k = none := rfl
+section
+variable {α : Type} [DecidableEq α] [Inhabited α]
 
-theorem lastOf_append_singleton (segs : List Seg) (s : Seg) (k : String) :
+
+theorem lastOf_nil (k : α) : lastOf [] k = none := rfl
+
+theorem lastOf_append_singleton (segs : List (Seg α)) (s : Seg α) (k : α) :
     lastOf (segs ++ [s]) k = if s.key == k then some s.data else lastOf segs k := by
   simp only [lastOf, List.reverse_append, List.reverse_cons, List.reverse_nil, List.nil_append,
     List.cons_append, List.find?_cons]
   by_cases h : (s.key == k) = true <;> simp [h]
 
-theorem lastOf_cons (s : Seg) (segs : List Seg) (k : String) :
+theorem lastOf_cons (s : Seg α) (segs : List (Seg α)) (k : α) :
     lastOf (s :: segs) k = match lastOf segs k with
       | some v => some v
       | none => if s.key == k then some s.data else none := by
@@ -101,11 +107,11 @@ theorem lastOf_cons (s : Seg) (segs : List Seg) (k : String) :
   | some x => simp
   | none => by_cases hk : (s.key == k) = true <;> simp [hk]
 
-theorem lastOf_eq_none_iff (segs : List Seg) (k : String) :
+theorem lastOf_eq_none_iff (segs : List (Seg α)) (k : α) :
     lastOf segs k = none ↔ ∀ s ∈ segs, s.key ≠ k := by
   simp only [lastOf, Option.map_eq_none_iff, List.find?_eq_none, List.mem_reverse, beq_iff_eq]
 
-theorem lastOf_some_of_mem_nodup (segs : List Seg) (hnd : (segs.map (·.key)).Nodup) (s : Seg) (hs : s ∈ segs) :
+theorem lastOf_some_of_mem_nodup (segs : List (Seg α)) (hnd : (segs.map Seg.key).Nodup) (s : Seg α) (hs : s ∈ segs) :
     lastOf segs s.key = some s.data := by
   induction segs with
   | nil => cases hs
@@ -118,7 +124,7 @@ theorem lastOf_some_of_mem_nodup (segs : List Seg) (hnd : (segs.map (·.key)).No
       simp [this]
     · rw [ih hnd.2 h]
 
-theorem lastOf_mem (segs : List Seg) (k v : String) (h : lastOf segs k = some v) :
+theorem lastOf_mem (segs : List (Seg α)) (k v : α) (h : lastOf segs k = some v) :
     ∃ s ∈ segs, s.key = k ∧ s.data = v := by
   simp only [lastOf, Option.map_eq_some_iff] at h
   obtain ⟨s, hf, hd⟩ := h
@@ -127,7 +133,7 @@ theorem lastOf_mem (segs : List Seg) (k v : String) (h : lastOf segs k = some v)
   exact ⟨s, by simpa using hm, by simpa using hk, hd⟩
 
 /-- With distinct keys the fold does not depend on the order of the segments. -/
-theorem lastOf_perm (l1 l2 : List Seg) (hp : l1.Perm l2) (hnd : (l1.map (·.key)).Nodup) (k : String) :
+theorem lastOf_perm (l1 l2 : List (Seg α)) (hp : l1.Perm l2) (hnd : (l1.map Seg.key).Nodup) (k : α) :
     lastOf l1 k = lastOf l2 k := by
   have hnd2 : (l2.map Seg.key).Nodup := (hp.map Seg.key).nodup_iff.mp hnd
   cases h : lastOf l1 k with
@@ -140,7 +146,7 @@ theorem lastOf_perm (l1 l2 : List Seg) (hp : l1.Perm l2) (hnd : (l1.map (·.key)
     rw [hk, hv] at this
     exact this.symm
 
-theorem allSegs_perm (p q : Folder) (h : p.Perm q) : (allSegs p).Perm (allSegs q) := by
+theorem allSegs_perm (p q : Folder α) (h : p.Perm q) : (allSegs p).Perm (allSegs q) := by
   induction h with
   | nil => exact List.Perm.refl _
   | cons x _ ih =>
@@ -153,7 +159,7 @@ theorem allSegs_perm (p q : Folder) (h : p.Perm q) : (allSegs p).Perm (allSegs q
   | trans _ _ ih1 ih2 => exact ih1.trans ih2
 
 /-- With distinct keys the legacy load is a function: every visiting order gives the same map. -/
-theorem loadsV1_unique (fo : Folder) (hu : UniqueKeys fo) (m : String → Option String) (h : LoadsV1 fo m) :
+theorem loadsV1_unique (fo : Folder α) (hu : UniqueKeys fo) (m : α → Option α) (h : LoadsV1 fo m) :
     m = loadV1In fo := by
   obtain ⟨perm, hp, rfl⟩ := h
   funext k
@@ -164,15 +170,15 @@ theorem loadsV1_unique (fo : Folder) (hu : UniqueKeys fo) (m : String → Option
 
 /-! ### Record level: the migrator's dedupe -/
 
-theorem beq_true_of_eq {a b : String} (h : a = b) : (a == b) = true := by simp [h]
-theorem beq_false_of_ne {a b : String} (h : a ≠ b) : (a == b) = false := by simp [h]
+theorem beq_true_of_eq {a b : α} (h : a = b) : (a == b) = true := by simp [h]
+theorem beq_false_of_ne {a b : α} (h : a ≠ b) : (a == b) = false := by simp [h]
 
-theorem lookup_cons (a b k' : String) (rest : List Entry) :
+theorem lookup_cons (a b k' : α) (rest : List (Entry α)) :
     lookup ((a, b) :: rest) k' = if a == k' then some b else lookup rest k' := by
   simp only [lookup, List.find?_cons]
   cases a == k' <;> rfl
 
-theorem lookup_insertKV (es : List Entry) (k v k' : String) :
+theorem lookup_insertKV (es : List (Entry α)) (k v k' : α) :
     lookup (insertKV es k v) k' = if k == k' then some v else lookup es k' := by
   induction es with
   | nil => simp only [insertKV, lookup_cons]
@@ -191,7 +197,7 @@ theorem lookup_insertKV (es : List Entry) (k v k' : String) :
       · have h3 : (a == k') = false := by simp [h2]
         simp [h3]
 
-theorem keys_insertKV (es : List Entry) (k v : String) :
+theorem keys_insertKV (es : List (Entry α)) (k v : α) :
     ∀ x, x ∈ (insertKV es k v).map Prod.fst → x = k ∨ x ∈ es.map Prod.fst := by
   induction es with
   | nil =>
@@ -214,7 +220,7 @@ theorem keys_insertKV (es : List Entry) (k v : String) :
         · exact Or.inl h2
         · exact Or.inr (List.mem_cons_of_mem _ h2)
 
-theorem nodup_insertKV (es : List Entry) (k v : String) (h : (es.map Prod.fst).Nodup) :
+theorem nodup_insertKV (es : List (Entry α)) (k v : α) (h : (es.map Prod.fst).Nodup) :
     ((insertKV es k v).map Prod.fst).Nodup := by
   induction es with
   | nil => simp [insertKV]
@@ -233,8 +239,8 @@ theorem nodup_insertKV (es : List Entry) (k v : String) (h : (es.map Prod.fst).N
       · exact hak h1
       · exact h'.1 h1
 
-theorem dedupe_last_aux (segs : List Seg) :
-    ∀ acc : List Entry, (acc.map Prod.fst).Nodup →
+theorem dedupe_last_aux (segs : List (Seg α)) :
+    ∀ acc : List (Entry α), (acc.map Prod.fst).Nodup →
       ((segs.foldl (fun es s => insertKV es s.key s.data) acc).map Prod.fst).Nodup ∧
       ∀ k, lookup (segs.foldl (fun es s => insertKV es s.key s.data) acc) k = match lastOf segs k with
         | some v => some v
@@ -252,7 +258,7 @@ theorem dedupe_last_aux (segs : List Seg) :
     | none => by_cases hk : (s.key == k) = true <;> simp [hk]
 
 /-- `entryMap[key] = entry`: distinct keys, and each key keeps the value of its last segment. -/
-theorem dedupe_last (cfg : MCfg) (h : cfg.dedupeLast = true) (segs : List Seg) :
+theorem dedupe_last (cfg : MCfg) (h : cfg.dedupeLast = true) (segs : List (Seg α)) :
     ((dedupe cfg segs).map Prod.fst).Nodup ∧ ∀ k, lookup (dedupe cfg segs) k = lastOf segs k := by
   have := dedupe_last_aux segs [] (by simp)
   simp only [dedupe, h, if_true]
@@ -260,23 +266,23 @@ theorem dedupe_last (cfg : MCfg) (h : cfg.dedupeLast = true) (segs : List Seg) :
   rw [this.2 k]
   cases lastOf segs k <;> simp [lookup]
 
-theorem lookup_isSome_of_mem (es : List Entry) (e : Entry) (h : e ∈ es) : (lookup es e.1).isSome = true := by
+theorem lookup_isSome_of_mem (es : List (Entry α)) (e : Entry α) (h : e ∈ es) : (lookup es e.1).isSome = true := by
   simp only [lookup, Option.isSome_map]
   rw [List.find?_isSome]
   exact ⟨e, h, by simp⟩
 
-theorem insertKV_ne_nil (es : List Entry) (k v : String) : insertKV es k v ≠ [] := by
+theorem insertKV_ne_nil (es : List (Entry α)) (k v : α) : insertKV es k v ≠ [] := by
   cases es with
   | nil => simp [insertKV]
   | cons e r => obtain ⟨a, b⟩ := e; simp only [insertKV]; split <;> simp
 
-theorem insertIfAbsent_ne_nil (es : List Entry) (k v : String) : insertIfAbsent es k v ≠ [] := by
+theorem insertIfAbsent_ne_nil (es : List (Entry α)) (k v : α) : insertIfAbsent es k v ≠ [] := by
   cases es with
   | nil => simp [insertIfAbsent]
   | cons e r => obtain ⟨a, b⟩ := e; simp only [insertIfAbsent]; split <;> simp
 
-theorem foldl_ne_nil (cfg : MCfg) (segs : List Seg) :
-    ∀ acc : List Entry, acc ≠ [] →
+theorem foldl_ne_nil (cfg : MCfg) (segs : List (Seg α)) :
+    ∀ acc : List (Entry α), acc ≠ [] →
       segs.foldl (fun es s => if cfg.dedupeLast then insertKV es s.key s.data else insertIfAbsent es s.key s.data) acc ≠ [] := by
   induction segs with
   | nil => intro acc h; simpa using h
@@ -288,8 +294,67 @@ theorem foldl_ne_nil (cfg : MCfg) (segs : List Seg) :
     · exact insertKV_ne_nil _ _ _
     · exact insertIfAbsent_ne_nil _ _ _
 
+theorem mem_insertKV (es : List (Entry α)) (k v : α) (e : Entry α) (h : e ∈ insertKV es k v) : e = (k, v) ∨ e ∈ es := by
+  induction es with
+  | nil => simp [insertKV] at h; exact Or.inl h
+  | cons x rest ih =>
+    obtain ⟨a, b⟩ := x
+    simp only [insertKV] at h
+    by_cases hak : a = k
+    · rw [if_pos (beq_true_of_eq hak)] at h
+      rcases List.mem_cons.mp h with h1 | h1
+      · exact Or.inl h1
+      · exact Or.inr (List.mem_cons_of_mem _ h1)
+    · rw [if_neg (by simp [hak])] at h
+      rcases List.mem_cons.mp h with h1 | h1
+      · exact Or.inr (h1 ▸ List.mem_cons_self ..)
+      · rcases ih h1 with h2 | h2
+        · exact Or.inl h2
+        · exact Or.inr (List.mem_cons_of_mem _ h2)
+
+theorem mem_insertIfAbsent (es : List (Entry α)) (k v : α) (e : Entry α) (h : e ∈ insertIfAbsent es k v) : e = (k, v) ∨ e ∈ es := by
+  induction es with
+  | nil => simp [insertIfAbsent] at h; exact Or.inl h
+  | cons x rest ih =>
+    obtain ⟨a, b⟩ := x
+    simp only [insertIfAbsent] at h
+    by_cases hak : a = k
+    · rw [if_pos (beq_true_of_eq hak)] at h
+      exact Or.inr h
+    · rw [if_neg (by simp [hak])] at h
+      rcases List.mem_cons.mp h with h1 | h1
+      · exact Or.inr (h1 ▸ List.mem_cons_self ..)
+      · rcases ih h1 with h2 | h2
+        · exact Or.inl h2
+        · exact Or.inr (List.mem_cons_of_mem _ h2)
+
+theorem mem_dedupe_aux (cfg : MCfg) (e : Entry α) (segs : List (Seg α)) :
+    ∀ acc : List (Entry α), e ∈ segs.foldl (fun es s => if cfg.dedupeLast then insertKV es s.key s.data
+      else insertIfAbsent es s.key s.data) acc → e ∈ acc ∨ ∃ s ∈ segs, e = (s.key, s.data) := by
+  induction segs with
+  | nil => intro acc h; exact Or.inl (by simpa using h)
+  | cons s segs ih =>
+    intro acc h
+    simp only [List.foldl_cons] at h
+    rcases ih _ h with h1 | ⟨s', hs', he⟩
+    · have : e = (s.key, s.data) ∨ e ∈ acc := by
+        split at h1
+        · exact mem_insertKV _ _ _ _ h1
+        · exact mem_insertIfAbsent _ _ _ _ h1
+      rcases this with h2 | h2
+      · exact Or.inr ⟨s, List.mem_cons_self .., h2⟩
+      · exact Or.inl h2
+    · exact Or.inr ⟨s', List.mem_cons_of_mem _ hs', he⟩
+
+/-- every entry the migrator writes is a segment of the folder -/
+theorem mem_dedupe (cfg : MCfg) (segs : List (Seg α)) (e : Entry α) (h : e ∈ dedupe cfg segs) :
+    ∃ s ∈ segs, e = (s.key, s.data) := by
+  rcases mem_dedupe_aux cfg e segs [] h with h1 | h1
+  · cases h1
+  · exact h1
+
 /-- the migrator sees an empty swamp exactly when the folder has no segment -/
-theorem dedupe_isEmpty (cfg : MCfg) (segs : List Seg) : (dedupe cfg segs).isEmpty = segs.isEmpty := by
+theorem dedupe_isEmpty (cfg : MCfg) (segs : List (Seg α)) : (dedupe cfg segs).isEmpty = segs.isEmpty := by
   cases segs with
   | nil => simp [dedupe]
   | cons s segs =>
@@ -301,5 +366,7 @@ theorem dedupe_isEmpty (cfg : MCfg) (segs : List Seg) : (dedupe cfg segs).isEmpt
       · exact insertKV_ne_nil _ _ _
       · exact insertIfAbsent_ne_nil _ _ _
     simpa [List.isEmpty_iff] using this
+
+end
 
 end Hv.Migrate
